@@ -712,6 +712,17 @@ func schedOp(w *schedWorld, name string) func() string {
 			}
 			return "accepted-as-signed"
 		}
+	case "PrincipalChurn":
+		// a long-running service: a few hundred other principals are parsed, resolved and printed
+		// (whatever the library remembers of them must not change what the shared tokens say)
+		for i := 0; i < 320; i++ {
+			raw := append([]byte{0xed, 0x01}, labelNonce(fmt.Sprint("sched-churn", arg, i), 32)...)
+			if d, err := did.Parse("did:key:z" + b58(raw)); err == nil {
+				_ = d.String()
+				_, _ = d.PubKey()
+			}
+		}
+		return func() string { return "done" }
 	case "StreamSealUnseal":
 		// the streaming forms side by side with other callers' (unrelated tokens, own sinks and
 		// sources): the CID reported is the hash of the bytes written / read, and the same as alone
@@ -1029,7 +1040,10 @@ func execSched(t *testing.T, pl Plan, seed uint64, o *Outcome) {
 	// ---- pass B: same order on one goroutine, private copy, snapshots around every operation
 	priv, err := buildSchedWorld(p)
 	if err != nil {
-		o.Harness("second world build failed")
+		// the very same tokens were constructed, sealed and decoded before the operations ran:
+		// read-only operations have changed something process-wide that construction depends on
+		o.Eval("C20")
+		o.Violate("C20", "result-changed-later", fmt.Sprintf("after the read-only operations ran, the tokens of the plan can no longer be constructed, sealed and decoded again: %v", err), map[string]string{"op": "rebuild"})
 		return
 	}
 	type heldRes struct {
@@ -1248,7 +1262,7 @@ func genSched(r *Rand, g GenCfg) Plan {
 		// decoders only, honest and forged bytes of the same token side by side
 		invOps, dlgOps = decodeOps, decodeOps
 	} else {
-		invOps = append(invOps, "EncryptOwn", "StreamSealUnseal")
+		invOps = append(invOps, "EncryptOwn", "StreamSealUnseal", "PrincipalChurn")
 		dlgOps = append(dlgOps, "StreamSealUnseal")
 		invOps = append(invOps, "DecodeSealed", "DecodeForged", "DecodeContainer")
 		dlgOps = append(dlgOps, "DecodeSealed", "DecodeForged", "DecodeTyped")
@@ -1280,6 +1294,8 @@ func genSched(r *Rand, g GenCfg) Plan {
 				name += ":" + Pick(r, []string{"sec", "sec2", "sec2"})
 			case "EncryptOwn":
 				name += ":" + fmt.Sprintf("g%d", g)
+			case "PrincipalChurn":
+				name += ":" + fmt.Sprintf("g%d-%d", g, i)
 			}
 			p.Ops[g] = append(p.Ops[g], name)
 		}
